@@ -225,12 +225,16 @@ pub fn worker(o: WorkerOpts) -> i32 {
             let mut last = (u64::MAX, 0.0f64);
             loop {
                 std::thread::sleep(std::time::Duration::from_millis(500));
+                // progress = (run index, guarded calls made): a single call into hashbrown that burns
+                // 20 s of CPU is the verdict, not a long run
                 let c = current.load(Ordering::Relaxed);
+                let hb = crate::state::HEARTBEAT.load(Ordering::Relaxed);
+                let c = if c == u64::MAX { c } else { c.wrapping_mul(0x9E37_79B9_7F4A_7C15) ^ hb };
                 let cpu = cpu_seconds();
                 if c != last.0 {
                     last = (c, cpu);
                 } else if c != u64::MAX && cpu - last.1 > 20.0 {
-                    println!("HANG {c}");
+                    println!("HANG {}", current.load(Ordering::Relaxed));
                     let _ = std::io::stdout().flush();
                     std::process::exit(3);
                 }
